@@ -379,7 +379,8 @@ class CatEagerSubs(Contract):
         parts.  preserve (arbitrary part of size psize at offset pos): pos' == pos + psize, at most one element is
         appended, it is this part sliced by a local Slice(pstart, pstop, s, psize) such that for EVERY global position g in
         [pos, pos+psize):  g in range(a,b,s)  <=>  the part is kept and g-pos in range(pstart, pstop, s);
-        exit: returns Cat(name, tuple(new_parts), part_name).
+        exit: returns Cat(<the slice's name>, tuple(new_parts), part_name) -- the result's input is the free input of the
+        substituted value (C04), not the Cat's old name.
     Lemma (paper, induction on the number of parts): per-part exactness + order preservation give
     result[k] == self[a + k*s] for all k < len(range(a,b,s)).  All sizes, offsets, slice fields symbolic."""
 
@@ -393,6 +394,7 @@ class CatEagerSubs(Contract):
         ("slice: stop not clipped to part", "pstop = min(pos + psize, stop) - pos", "pstop = stop - pos"),
         ("slice: position not advanced", "pos += psize", "pos += 0"),
         ("slice: part dropped when the slice starts at its last position", "pos + psize <= start", "pos + psize <= start + 1"),
+        ("slice: result keeps the Cat's own name (the pinned-tree defect)", "return Cat(value.name, tuple(new_parts), self.part_name)", "return Cat(self.name, tuple(new_parts), self.part_name)"),
     )
 
     def structures(self, tier):
@@ -507,7 +509,7 @@ class CatEagerSubs(Contract):
             else:
                 cl.append(("part_dropped_only_if_it_contains_no_slice_position", Implies(in_part, Not(sel_global))))
             return cl
-        cl.append(("exit_returns_cat_of_collected_parts", And(isinstance(result, CatM), result.name == "t", result.part_name == "p", len(result.parts) == 1 and result.parts[0] is ctx.final[0])))
+        cl.append(("exit_returns_cat_of_collected_parts_named_after_the_slice", And(isinstance(result, CatM), result.name == "v", result.part_name == "p", len(result.parts) == 1 and result.parts[0] is ctx.final[0])))
         return cl
 
     def hints(self, ctx, path):
